@@ -140,7 +140,10 @@ fn judge06(_cfg: &Cfg, _m: &mut M06, tr: &Transition, rep: Option<&mut Report>) 
                 let inputs_psd = u.used.as_ref().is_some_and(|used| {
                     used.iter().all(|id| {
                         u.table.iter().any(|(tid, _, f, _)| {
-                            tid == id && f.is_some_and(|f| f[2] >= 0.0 && f[5] >= 0.0 && f[2] * f[5] - f[3] * f[4] >= 0.0)
+                            tid == id
+                                && f.is_some_and(|f| {
+                                    f[2] >= 0.0 && f[5] >= 0.0 && f[2] * f[5] - f[3] * f[4] >= 0.0
+                                })
                         })
                     })
                 });
@@ -184,7 +187,9 @@ fn judge06(_cfg: &Cfg, _m: &mut M06, tr: &Transition, rep: Option<&mut Report>) 
                         }
                         let singular = |id: &u64| {
                             u.table.iter().any(|(tid, _, f, disp)| {
-                                tid == id && *disp == 0 && f.is_some_and(|f| f[2] * f[5] - f[3] * f[4] == 0.0)
+                                tid == id
+                                    && *disp == 0
+                                    && f.is_some_and(|f| f[2] * f[5] - f[3] * f[4] == 0.0)
                             })
                         };
                         if used.iter().any(singular) {
@@ -603,10 +608,30 @@ fn check() {
     {
         // (name, singular source, its burst, the delay that keeps its noise estimate at 0)
         let kinds: Vec<(&str, u8, Ev, i64)> = vec![
-            ("two-way sub-floor delays, distinct offsets", A, Ev::burst(A, 0, 1, S, 8, MS / 10, 0), 1),
-            ("two-way sub-floor delays, identical offsets", A, Ev::burst(A, 0, 1, S, 8, 0, 0), 1),
-            ("two-way identical 1 ms delays and offsets", A, Ev::burst(A, 0, MS, S, 8, 0, 0), MS),
-            ("one-way identical offsets", G, Ev::burst(G, 0, 0, S, 8, 0, 0), 0),
+            (
+                "two-way sub-floor delays, distinct offsets",
+                A,
+                Ev::burst(A, 0, 1, S, 8, MS / 10, 0),
+                1,
+            ),
+            (
+                "two-way sub-floor delays, identical offsets",
+                A,
+                Ev::burst(A, 0, 1, S, 8, 0, 0),
+                1,
+            ),
+            (
+                "two-way identical 1 ms delays and offsets",
+                A,
+                Ev::burst(A, 0, MS, S, 8, 0, 0),
+                MS,
+            ),
+            (
+                "one-way identical offsets",
+                G,
+                Ev::burst(G, 0, 0, S, 8, 0, 0),
+                0,
+            ),
         ];
         for (kname, x, xburst, d) in &kinds {
             let (x, d) = (*x, *d);
@@ -615,7 +640,11 @@ fn check() {
             for ncomp in [1usize, 2] {
                 let comp = &others[..ncomp];
                 let benign = |s: u8| {
-                    if s == G { Ev::burst(G, 0, 0, S, 8, MS / 10, 0) } else { Ev::burst(s, 0, MS, S, 8, MS / 10, MS / 50) }
+                    if s == G {
+                        Ev::burst(G, 0, 0, S, 8, MS / 10, 0)
+                    } else {
+                        Ev::burst(s, 0, MS, S, 8, MS / 10, MS / 50)
+                    }
                 };
                 let mut prefix = prefix_usable();
                 for &c in comp {
@@ -632,7 +661,12 @@ fn check() {
                     m(x, 0, d, S).with_root(MAX_SHORT, MAX_SHORT),
                     m(y, 0, yd, S),
                     m(y, 1, yd, DT_MS),
-                    m(*comp.last().unwrap(), 20 * US, if *comp.last().unwrap() == G { 0 } else { MS }, S),
+                    m(
+                        *comp.last().unwrap(),
+                        20 * US,
+                        if *comp.last().unwrap() == G { 0 } else { MS },
+                        S,
+                    ),
                     Ev::Usable { src: y, on: false },
                     Ev::Tick,
                 ];
@@ -640,8 +674,14 @@ fn check() {
                     for order in [0u8, 1] {
                         specs.push(Spec {
                             rank: 0,
-                            name: format!("singular/{kname}/{ncomp} companion(s)/quorum{min_agree}/ord{order}"),
-                            cfg: Cfg { min_agree, order, ..Cfg::default() },
+                            name: format!(
+                                "singular/{kname}/{ncomp} companion(s)/quorum{min_agree}/ord{order}"
+                            ),
+                            cfg: Cfg {
+                                min_agree,
+                                order,
+                                ..Cfg::default()
+                            },
                             prefix: prefix.clone(),
                             alphabet: follow.clone(),
                             depth: d_sing,
@@ -662,7 +702,11 @@ fn check() {
     let mut n_run_specs = 0u64;
     {
         let quarter = S / 4;
-        let profiles: &[&str] = if quick { &["WWL", "WLL", "WWM", "WL", "WWWL"] } else { &["WWL", "WLL", "WWM", "WL", "LL", "WWWL", "WWLL"] };
+        let profiles: &[&str] = if quick {
+            &["WWL", "WLL", "WWM", "WL", "WWWL"]
+        } else {
+            &["WWL", "WLL", "WWM", "WL", "LL", "WWWL", "WWLL"]
+        };
         for classes in profiles {
             let n = classes.len();
             let l = classes.bytes().position(|c| c != b'W').unwrap_or(0) as u8;
@@ -677,8 +721,20 @@ fn check() {
                 wan(100 * US, 10 * MS, quarter),
                 wan(-150 * US, 11 * MS, S),
                 wan(0, 10 * MS, DT_BIG),
-                Ev::Run { classes: classes.to_string(), rounds: 4, seed: c01::RUN_SEED ^ 0x9E37_79B9_7F4A_7C15, dt: quarter, late: false },
-                Ev::Run { classes: classes.to_string(), rounds: 8, seed: c01::RUN_SEED.rotate_left(17), dt: S, late: true },
+                Ev::Run {
+                    classes: classes.to_string(),
+                    rounds: 4,
+                    seed: c01::RUN_SEED ^ 0x9E37_79B9_7F4A_7C15,
+                    dt: quarter,
+                    late: false,
+                },
+                Ev::Run {
+                    classes: classes.to_string(),
+                    rounds: 8,
+                    seed: c01::RUN_SEED.rotate_left(17),
+                    dt: S,
+                    late: true,
+                },
                 Ev::Tick,
                 Ev::Usable { src: l, on: false },
                 Ev::Usable { src: w, on: false },
@@ -686,12 +742,27 @@ fn check() {
             let lates: &[bool] = if quick { &[false] } else { &[false, true] };
             for order in 0..c01::order_count(n) {
                 for &late in lates {
-                    let cfg = Cfg { sources: vec![c01::SrcKind::Two; n], order, ..Cfg::default() };
-                    let mut prefix: Vec<Ev> = (0..n as u8).map(|s| Ev::Usable { src: s, on: true }).collect();
-                    prefix.push(Ev::Run { classes: classes.to_string(), rounds: run_rounds, seed: c01::RUN_SEED, dt: quarter, late });
+                    let cfg = Cfg {
+                        sources: vec![c01::SrcKind::Two; n],
+                        order,
+                        ..Cfg::default()
+                    };
+                    let mut prefix: Vec<Ev> = (0..n as u8)
+                        .map(|s| Ev::Usable { src: s, on: true })
+                        .collect();
+                    prefix.push(Ev::Run {
+                        classes: classes.to_string(),
+                        rounds: run_rounds,
+                        seed: c01::RUN_SEED,
+                        dt: quarter,
+                        late,
+                    });
                     specs.push(Spec {
                         rank: 0,
-                        name: format!("long-run/{classes}/order {:?}/late={late}", c01::order_permutation(order, n)),
+                        name: format!(
+                            "long-run/{classes}/order {:?}/late={late}",
+                            c01::order_permutation(order, n)
+                        ),
                         cfg,
                         prefix,
                         alphabet: follow.clone(),
